@@ -211,7 +211,7 @@ fn check(case: &AttrCase, run: &mut Run) -> Result<(), String> {
 
 fn strategy() -> BoxedStrategy<AttrCase> {
     let form = select(vec!["token", "regex", "skip"]);
-    let lit = select(vec!["\"ab\"", "\"a+\"", "b\"xy\"", "\"[a-c]x\"", "r\"k\\d\""]);
+    let lit = select(vec!["\"ab\"", "\"a+\"", "b\"xy\"", "\"[a-c]x\"", "r\"k\\d\"", "\"q.*\"", "r\"w[^\\n]+\""]);
     let pos = prop::option::weighted(
         0.35,
         select(vec![
